@@ -381,6 +381,23 @@ ED_PREFIX_OF_SECP = [("0def64a4cff06ad79fd016c35054858903e44795d0cb19f7c949a2bb3
                      ("758993eaef69555d670bd43084018b2be7f300c270e3cd1885f857401be6aec0", "02b3bbf71b67e512a22273de6bd49bcfd4186b62c0795981395d42ed50b14f65", 1)]
 
 
+# small secrets whose public key has a special first byte (of x for secp256k1, of the key for ed25519): SEC1 tags
+# 00/02/03/04/06/07, '0', 0x80, 0xff, 0x01 — a conversion that strips or interprets a leading tag byte goes wrong on
+# exactly these (found by grinding secrets 1..6000 once)
+SECP_X_FIRST_BYTE = {255: 6, 128: 39, 4: 45, 1: 60, 7: 66, 48: 102, 3: 133, 0: 153, 6: 230, 2: 441}
+ED_PUB_FIRST_BYTE = {2: 20, 0: 36, 1: 54, 255: 94, 6: 120, 3: 213, 48: 222, 4: 242, 128: 641, 7: 1708}
+
+
+def special_first_byte_keys(oracle, kt):
+    import enrlib
+    out = []
+    if kt in ("k256", "libsecp", "comb"):
+        out += [enrlib.Key(oracle, kt, i.to_bytes(32, "big"), "secp" if kt == "comb" else None) for i in SECP_X_FIRST_BYTE.values()]
+    if kt in ("ed", "comb"):
+        out += [enrlib.Key(oracle, kt, i.to_bytes(32, "big"), "ed" if kt == "comb" else None) for i in ED_PUB_FIRST_BYTE.values()]
+    return [k for k in out if k.pub is not None]
+
+
 def boundary_records(rng, oracle, kt, keys=None):
     """valid records whose keys / values sit on RLP framing boundaries: key lengths 0, 1 (< 0x80 and >= 0x80), 55, 56,
     57; string values of 0, 1, 55, 56 bytes; lists of 55 / 56 payload bytes; the same record for every shape"""
